@@ -203,6 +203,10 @@ async fn scenario(sim: Arc<Sim>, unit: Value) -> Obs {
     }
 
     // ---- the action ----
+    if unit["fates"].as_bool().unwrap_or(false) {
+        // datagram fates become choice points from the moment of shutdown on
+        sim.fabric.set_fate_window(0, 16);
+    }
     let t0 = sim.now_us();
     let mut concurrent: Vec<(String, tokio::task::JoinHandle<Result<(), String>>)> = vec![];
     let spawn_concurrent = |n: &anemo::Network, concurrent: &mut Vec<(String, tokio::task::JoinHandle<Result<(), String>>)>| {
@@ -445,7 +449,7 @@ impl Check for C08 {
                     u.push(json!({"peers":peers,"inflight":inflight,"concurrent":[],"action":"shutdown","crash":crash,"bound":0}));
                 }
                 if inflight.len() <= 1 {
-                    for k in 1..=tier.pick(4u64, 8) {
+                    for k in 1..=tier.pick(4u64, 16) {
                         u.push(json!({"peers":peers,"inflight":inflight,"concurrent":[],"action":"shutdown","crash":"rt_drop_during","drop_after":k,"bound":0}));
                     }
                 }
@@ -460,8 +464,17 @@ impl Check for C08 {
                 }
             }
             // datagram fates over the close exchange
-            for inflight in [vec![], vec!["out_rpc"], vec!["in_rpc"]] {
-                u.push(json!({"peers":peers,"inflight":inflight,"concurrent":[],"action":"shutdown","crash":"none","bound":tier.pick(1, 2),"fates":true}));
+            let fate_sets: Vec<Vec<&str>> = match tier {
+                Tier::Quick => vec![vec![], vec!["out_rpc"], vec!["in_rpc"]],
+                Tier::Thorough => vec![vec![], vec!["out_rpc"], vec!["in_rpc"], vec!["in_rpc2"], vec!["dial_blackhole"], vec!["out_rpc", "in_rpc"], vec!["out_rpc", "dial_blackhole"], vec!["in_rpc", "in_rpc2"]],
+            };
+            for inflight in fate_sets {
+                for action in ["shutdown", "drop"] {
+                    if tier == Tier::Quick && action == "drop" && !inflight.is_empty() {
+                        continue;
+                    }
+                    u.push(json!({"peers":peers,"inflight":inflight,"concurrent":[],"action":action,"crash":"none","bound":tier.pick(1, 2),"fates":true}));
+                }
             }
         }
         u
@@ -482,11 +495,7 @@ impl Check for C08 {
             move |sim| {
                 let u = u.clone();
                 async move {
-                    if fates {
-                        // the choice window opens after set-up: connections take ~20 datagrams each
-                        let skip = 40 * u["peers"].as_u64().unwrap() as usize + 30;
-                        sim.fabric.set_fate_window(skip, 14);
-                    }
+                    let _ = fates;
                     scenario(sim, u).await
                 }
                 .boxed()
@@ -503,10 +512,7 @@ impl Check for C08 {
         let fates = unit["fates"].as_bool().unwrap_or(false);
         let o = sim_exec(seed, &choices, 2_000, move |sim| {
             async move {
-                if fates {
-                    let skip = 40 * u["peers"].as_u64().unwrap() as usize + 30;
-                    sim.fabric.set_fate_window(skip, 14);
-                }
+                let _ = fates;
                 scenario(sim, u).await
             }
             .boxed()
